@@ -327,6 +327,13 @@ theorem C14_inherited_irrelevant (c : Case) (l : List String)
     model { c with baseDefines := l } = model c :=
   model_congr c l h
 
+/-- **C14_history_irrelevant**: the decision table is a function of the class alone — whatever classes the same
+    decorator object was applied to before (any number, any bodies), the errors, the decisions and the whole
+    resulting class dict are the same.  (The correspondence really re-uses one decorator object; a decision that
+    leaks from one decorated class into the next shows up as a difference between the code and this model.) -/
+theorem C14_history_irrelevant (c : Case) (h : List (List String)) :
+    model { c with history := h } = model c := rfl
+
 /-! ### user-defined methods are never replaced -/
 
 /-- the keys the builder writes -/
